@@ -116,6 +116,7 @@ type machine struct {
 
 var allRIDs = []string{"svc.r.1", "svc.r.2", "svc.s.1", "svc.s.2", "svc.t.a.1", "svc.t.a.2", "svc.t.b.1", "svc.p.1", "svc.m.1", "svc.m.2", "svc.nosuch.1",
 	"svc.m.w.a.x", "svc.m.w.a.y.z", "svc.m.fixed", "svc.m.q.1", "svc.u.book.1", "svc.u.toy.1", "svc.m.a.b", "svc.m.c.b", "svc.r.1.deep",
+	"svc.m.n.a.1", "svc.m.n.a.2", "svc.m.n.b.1", "svc.m.n.k.1.a", "svc.m.n.k.2.a", "svc.x.a.1", "svc.x.b.1",
 	// no handler: the service name glued to further characters
 	"svcx.r.1", "svc_r.1", "svc"}
 
@@ -272,6 +273,9 @@ func (m *machine) build() {
 			res.GetResource(func(r res.GetRequest) { m.handler("get")(r.(*res.Request)) }),
 			res.Call("do", func(r res.CallRequest) { m.handler("call")(r.(*res.Request)) }),
 			res.Auth("do", func(r res.AuthRequest) { m.handler("auth")(r.(*res.Request)) }),
+			// catch-all handlers: any other method is a callback of the group just the same
+			res.Call("*", func(r res.CallRequest) { m.handler("call")(r.(*res.Request)) }),
+			res.Auth("*", func(r res.AuthRequest) { m.handler("auth")(r.(*res.Request)) }),
 		}
 		return append(o, extra...)
 	}
@@ -283,6 +287,11 @@ func (m *machine) build() {
 	sub.Handle("$id", opts(res.Group("mm.${id}"))...)
 	// a full-wildcard pattern inside the mounted mux whose group template is shared with t.$tag.$id
 	sub.Handle("w.$g.>", opts(res.Group("tg.${g}"))...)
+	// a mux mounted two levels deep whose group is a single tag, the first token after the mounts
+	sub2 := res.NewMux("")
+	sub2.Handle("$tag.$id", opts(res.Group("${tag}"))...)
+	sub2.Handle("k.$id.$tag", opts(res.Group("${tag}"))...) // the tag is the last token
+	sub.Mount("n", sub2)
 	s.Mount("m", sub)
 	// registered through the parent after mounting: default group, and a ${tag} group
 	s.Handle("m.fixed", opts()...)
@@ -291,14 +300,16 @@ func (m *machine) build() {
 	// (r.1.deep next to r.$id); a three-placeholder pattern reached by backtracking out of the mount
 	s.Handle("u.$itemType.$item", opts(res.Group("it.${item}"))...)
 	s.Handle("r.1.deep", opts()...)
-	s.Handle("$a.$b.$c", opts(res.Group("abc.${a}"))...)
+	s.Handle("$a.$b.$c", opts(res.Group("${a}"))...)
 	// the resource named like the service (root pattern), default group
 	s.Handle("", opts()...)
 	m.entries = []refmux.Entry{
 		{Pattern: "svc", Marker: 11},
 		{Pattern: "svc.u.$itemType.$item", Marker: 8, Group: "it.${item}"},
 		{Pattern: "svc.r.1.deep", Marker: 9},
-		{Pattern: "svc.$a.$b.$c", Marker: 10, Group: "abc.${a}"},
+		{Pattern: "svc.$a.$b.$c", Marker: 10, Group: "${a}"},
+		{Pattern: "svc.m.n.$tag.$id", Marker: 12, Group: "${tag}"},
+		{Pattern: "svc.m.n.k.$id.$tag", Marker: 13, Group: "${tag}"},
 		{Pattern: "svc.m.w.$g.>", Marker: 5, Group: "tg.${g}"},
 		{Pattern: "svc.m.fixed", Marker: 6},
 		{Pattern: "svc.m.q.$id", Marker: 7, Group: "mm.${id}"},
@@ -519,7 +530,11 @@ func (m *machine) exec(op Op) {
 		m.noteSubmission(sb)
 		subj := op.Typ + "." + op.RID
 		if op.Typ == "call" || op.Typ == "auth" {
-			subj += ".do"
+			if op.Pick == 1 {
+				subj += ".other" // served by the catch-all handler
+			} else {
+				subj += ".do"
+			}
 		}
 		payload := fmt.Sprintf(`{"query":"id=%d"}`, sb.ID)
 		m.ctl.Do("deliver "+subj, func() {
